@@ -177,7 +177,7 @@ class SmilesToken(BigSMILESbase):
                             preceding_characters.find("(") + 1 :
                         ]
                     if ")" in elementB:
-                        preceding_characters += elementB[: preceding_characters.find(")")]
+                        preceding_characters += elementB[: elementB.find(")")]
                     else:
                         preceding_characters += elementB
 
